@@ -50,6 +50,36 @@ def uploadHandler : Handler
       let o := Upload.exec op ⟨src, dk, if dk = .dir then dest else [], false⟩ ctl (entries.map (·.1))
       pure ((if o.ok then "ok" else "err") ++ " src" ++ dumpDir o.state.src ++ " dst" ++ dumpDir o.state.dest
         ++ " handle=" ++ (if o.handleDest then "dest" else "src") ++ " outside=" ++ (if o.state.outside then "touched" else "intact"))
+  -- uploadseq <ctl> n (name state)ⁿ k (op target)ᵏ : three directories, the handle starts in 0
+  | "uploadseq", _kind :: ctl :: n :: ts => do
+      let ctl ← hx ctl
+      let n ← n.toNat?
+      let rec readFiles : Nat → List String → Option (List (Bytes × Option Node) × List String)
+        | 0, ts => some ([], ts)
+        | k+1, name :: st :: ts => do
+            let name ← hx name
+            let st ← readNode st
+            let (rest, ts) ← readFiles k ts
+            pure ((name, st) :: rest, ts)
+        | _, _ => none
+      let (files, ts) ← readFiles n ts
+      let rec readOps : List String → Option (List (Op × Nat))
+        | [] => some []
+        | op :: t :: ts => do
+            let op ← match op with | "copy" => some Op.copy | "move" => some Op.move | "remove" => some Op.remove | _ => none
+            let t ← t.toNat?
+            let rest ← readOps ts
+            pure ((op, t) :: rest)
+        | _ => none
+      let ops ← match ts with | _k :: ts => readOps ts | [] => none
+      let src0 : Dir := files.foldl (fun d (nm, st) => if Upload.plain nm then
+          (match st with | some x => put d nm x | none => del d nm) else d) []
+      let src : Dir := put src0 ctl (.file 999)
+      match Upload.runW ctl (files.map (·.1)) ⟨[src, [], []], 0⟩ ops with
+      | none => pure "unmodelled"
+      | some (w, oks) =>
+      pure (String.intercalate "," (oks.map (fun b => if b then "ok" else "err")) ++ " here=" ++ toString w.here
+        ++ " " ++ String.intercalate " " (w.dirs.map dumpDir))
   | _, _ => none
 
 end GoDebian.Drv
